@@ -287,6 +287,7 @@ def run(report, p):
     gv = cfg_of(ver)
     from .common import canon_dep
 
+    n_pl_workers = 0
     for call, tg in p.calls[ver.qual]:
         deps = {canon_dep(t.ast, l) for t, l in gv.control_deps(gv.node_for(call), transitive=False) if t.kind == "test"}
         if ("packing_list is None", "F") in deps or ("packing_list", "T") in deps:
@@ -294,12 +295,15 @@ def run(report, p):
                 wf = p.funcs.get(t)
                 if wf is None or wf.module.name.endswith("logger"):
                     continue
+                n_pl_workers += 1
                 r4.instance(ver, call, "verify -pl worker call")
                 b = p.bind_args(wf, call)
                 passed = [pn for pn, arg in b.items() if isinstance(arg, ast.Name) and arg.id == "packing_list"]
                 r4.check(len(passed) == 1 and "packing" in passed[0], ver, call, f"the -pl branch of verify does not hand the packing list to its worker's packing-list parameter (bound to {passed})", construct="verify -pl argument")
                 rootp = [pn for pn, arg in b.items() if isinstance(arg, ast.Name) and arg.id == "root_path"]
                 r4.check(len(rootp) == 1 and "root" in rootp[0], ver, call, f"the -pl branch of verify passes the root path as `{rootp}`", construct="verify -pl root argument")
+
+    r4.check(n_pl_workers >= 1, ver, ver.node, "verify has no worker call on the branch taken when --packing_list is given: the packing list is ignored and the tree is verified against whatever history lies in it (or the command fails with `no history`)", construct="verify -pl branch without worker call")
 
     # ------------------------------------------------------------------ R18.6
     r6 = report.rule(
